@@ -266,3 +266,136 @@ if __name__ == "__main__":
     R = sorted(glob.glob("/verif/.cache/*-rel"))[0]
     d = extract([R + "/src/include/libecpint", R + "/b/include/libecpint", R + "/src/src/lib"])
     print(json.dumps(d, indent=1))
+
+
+# ---------------------------------------------------------------- inventory of every class of the library (fields + which copy operations are user-declared)
+INV_TU = r'''
+#include "api.hpp"
+#include "ecpint.hpp"
+#include "gaussquad.hpp"
+#include "bessel.hpp"
+#include "angular.hpp"
+#include "radial.hpp"
+#include "gshell.hpp"
+#include "ecp.hpp"
+#include "multiarr.hpp"
+using namespace libecpint;
+'''
+
+ARITH = {"bool", "char", "signed char", "unsigned char", "short", "unsigned short", "int", "unsigned int", "unsigned", "long", "unsigned long",
+         "long long", "unsigned long long", "float", "double", "long double", "size_t", "std::size_t"}
+
+
+def split_targs(s):
+    """split 'a, b<c, d>, e' at top-level commas"""
+    out = []; depth = 0; cur = ""
+    for ch in s:
+        if ch == "<":
+            depth += 1
+        elif ch == ">":
+            depth -= 1
+        if ch == "," and depth == 0:
+            out.append(cur.strip()); cur = ""
+        else:
+            cur += ch
+    if cur.strip():
+        out.append(cur.strip())
+    return out
+
+
+def parse_type(t, enums, classes, tparams=()):
+    """C++ type string -> Coq term of CopySem/ClassInv.ty (tokenisation only)"""
+    import re
+    t = t.strip()
+    t = re.sub(r"\bconst\b", "", t).strip()
+    t = re.sub(r"\b(struct|class|enum)\s+", "", t).strip()
+    if t.endswith("&"):
+        return "(TRef %s)" % parse_type(t[:-1], enums, classes, tparams)
+    if t.endswith("*"):
+        return "(TPtr %s)" % parse_type(t[:-1], enums, classes, tparams)
+    m = re.fullmatch(r"(.*?)\s*\[\s*\d*\s*\]((?:\s*\[\s*\d*\s*\])*)", t)
+    if m:
+        return "(TSeq %s)" % parse_type(m.group(1) + m.group(2), enums, classes, tparams)
+    m = re.fullmatch(r"([\w:]+)\s*<(.*)>", t, flags=re.S)
+    if m:
+        head = m.group(1).replace("std::__cxx11::", "std::").replace("std::__1::", "std::")
+        if not head.startswith("std::") and head.split("::")[-1] not in classes:
+            head = "std::" + head if head in ("vector", "array", "map", "shared_ptr", "unique_ptr", "list", "deque", "function", "pair", "set", "unordered_map") else head
+        args = split_targs(m.group(2))
+        if head in ("std::vector", "std::list", "std::deque", "std::set"):
+            return "(TSeq %s)" % parse_type(args[0], enums, classes, tparams)
+        if head == "std::array":
+            return "(TSeq %s)" % parse_type(args[0], enums, classes, tparams)
+        if head in ("std::map", "std::unordered_map", "std::pair"):
+            return "(TMap %s %s)" % (parse_type(args[0], enums, classes, tparams), parse_type(args[1], enums, classes, tparams))
+        if head == "std::shared_ptr":
+            return "(TShared %s)" % parse_type(args[0], enums, classes, tparams)
+        if head == "std::unique_ptr":
+            return "(TUnique %s)" % parse_type(args[0], enums, classes, tparams)
+        if head == "std::basic_string":
+            return '(TStd "std::string")'
+        base = head.split("::")[-1]
+        if base in classes:
+            return '(TNamed "%s")' % base
+        return '(TOther "%s")' % t.replace('"', "'")
+    base = t.split("::")[-1]
+    if t in ARITH or base in ARITH or t in tparams:
+        return "TArith"
+    if base in enums:
+        return "TArith"
+    if t in ("std::string", "string"):
+        return '(TStd "std::string")'
+    if base in classes:
+        return '(TNamed "%s")' % base
+    return '(TOther "%s")' % t.replace('"', "'")
+
+
+def inventory(inc_dirs):
+    """[{name, fields:[(name, type string)], user_cctor, user_cassign}] for every class/struct/class template defined in namespace libecpint"""
+    tmp = tempfile.mkdtemp(prefix="tcopy-inv-")
+    try:
+        tu = os.path.join(tmp, "inv.cpp"); open(tu, "w").write(INV_TU)
+        cmd = ["clang++", "-std=c++17", "-fsyntax-only"] + ["-I" + d for d in inc_dirs] + ["-Xclang", "-ast-dump=json", "-Xclang", "-ast-dump-filter=libecpint::", tu]
+        p = subprocess.run(cmd, stdout=subprocess.PIPE, stderr=subprocess.PIPE)
+        objs = load_objs(p.stdout.decode())
+        recs = {}; enums = set()
+        for o in objs:
+            k = o.get("kind")
+            if k == "EnumDecl" and o.get("name"):
+                enums.add(o["name"])
+            rec = None; tparams = ()
+            if k == "CXXRecordDecl" and o.get("completeDefinition"):
+                rec = o
+            elif k == "ClassTemplateDecl":
+                rr = [c for c in o.get("inner", []) if c.get("kind") == "CXXRecordDecl" and c.get("completeDefinition")]
+                rec = rr[0] if rr else None
+                tparams = tuple(c.get("name") for c in o.get("inner", []) if c.get("kind") == "TemplateTypeParmDecl")
+            if rec is None or not rec.get("name"):
+                continue
+            name = rec["name"]
+            fields = [(c["name"], c["type"].get("desugaredQualType", c["type"]["qualType"])) for c in rec.get("inner", []) if c.get("kind") == "FieldDecl"]
+            def is_copy_sig(qt):
+                return ("const " in qt) and ("&" in qt) and ("&&" not in qt) and ("," not in qt.split("(", 1)[-1]) and (name in qt.split("(", 1)[-1])
+            ucc = any(c.get("kind") == "CXXConstructorDecl" and not c.get("isImplicit") and is_copy_sig(c.get("type", {}).get("qualType", "")) for c in rec.get("inner", []))
+            uca = any(c.get("kind") == "CXXMethodDecl" and c.get("name") == "operator=" and not c.get("isImplicit") and is_copy_sig(c.get("type", {}).get("qualType", ""))
+                      and "= delete" not in str(c.get("explicitlyDeleted", "")) for c in rec.get("inner", []))
+            if name not in recs or len(fields) > len(recs[name]["fields"]):
+                recs[name] = {"name": name, "fields": fields, "user_cctor": ucc, "user_cassign": uca, "tparams": tparams}
+        return [recs[k] for k in sorted(recs)], sorted(enums), p.stderr.decode()[-400:]
+    finally:
+        import shutil
+        shutil.rmtree(tmp, ignore_errors=True)
+
+
+def emit_inventory(inv, enums, path):
+    classes = set(c["name"] for c in inv)
+    L = ["(* generated by translators/t_copy.py (inventory) from clang's AST of the working tree - do not edit *)",
+         "From Coq Require Import List String Bool.", "From LV Require Import CopySem.ClassInv.", "Import ListNotations.", "Local Open Scope string_scope.", "",
+         "Definition classes_from_source : list cls := ["]
+    rows = []
+    for c in inv:
+        fs = "; ".join('("%s", %s)' % (n, parse_type(t, enums, classes, c.get("tparams", ()))) for n, t in c["fields"])
+        rows.append('  mkCls "%s" [%s] %s %s' % (c["name"], fs, "true" if c["user_cctor"] else "false", "true" if c["user_cassign"] else "false"))
+    L.append(";\n".join(rows))
+    L.append("].")
+    open(path, "w").write("\n".join(L) + "\n")
